@@ -33,20 +33,42 @@ def dig(s):
     return hashlib.sha1(s.encode("utf8", "surrogatepass")).hexdigest()[:16]
 
 
+# option sets (C15 "every text and option set"): 0 plain, 1 remove_ambiguous, 2 plain text with cleaning steps,
+# 3 markup mode, 4 markup mode with a step list that lacks "html" (raises; the call must still leave its
+# arguments alone).  The step lists are SHARED between calls, as a caller's configuration object is.
+PRISTINE = {2: ["all_whitespace"], 3: ["html", "inline_whitespace"], 4: ["inline_whitespace"]}
+SHARED = {k: list(v) for k, v in PRISTINE.items()}
+NOPTS = 5
+
+
+def inputs_intact():
+    return all(SHARED[k] == PRISTINE[k] for k in PRISTINE)
+
+
 def call(text, opt):
     from eyecite import get_citations
     try:
-        r = get_citations(text, remove_ambiguous=bool(opt))
+        if opt in (0, 1):
+            r = get_citations(text, remove_ambiguous=bool(opt))
+        elif opt == 2:
+            r = get_citations(text, clean_steps=SHARED[2])
+        else:
+            r = get_citations(markup_text=text, clean_steps=SHARED[opt])
         return r, ser(r)
     except Exception as ex:  # noqa: BLE001
-        return None, f"RAISED {type(ex).__name__}: {ex}"
+        return None, f"RAISED {type(ex).__name__}: {ex}"[:200]
 
 
 def baseline(payload):
-    """one call per (text, option) in a single-threaded fresh process"""
+    """one call per (text, option) in a single-threaded fresh process, each with fresh argument objects"""
     out = []
     for t in payload["texts"]:
-        out.append([call(t, 0)[1], call(t, 1)[1]])
+        row = []
+        for opt in range(NOPTS):
+            for k in PRISTINE:
+                SHARED[k] = list(PRISTINE[k])
+            row.append(call(t, opt)[1])
+        out.append(row)
     return out
 
 
@@ -83,7 +105,7 @@ def run_histories(payload):
             else:
                 obj, s = workers[th].done.get()
                 c = open_call.pop(th)
-                c["same_input"] = texts[c["text"]] == c.pop("_before")
+                c["same_input"] = texts[c["text"]] == c.pop("_before") and inputs_intact()
                 c["d"] = dig(s)
                 c["_obj"], c["_s"] = obj, s
                 calls.append(c)
